@@ -50,6 +50,10 @@ def run(ctx):
               label="calendar self-consistency and functional = declarative for every day of the range x 7 units")
     recs = gather(ctx)
     check(ctx, recs)
+    # the process's local zone is no input of the property: a slice of the same calls is made in a zone with DST
+    zrecs = gather(ctx, tz="EST5EDT,M3.2.0,M11.1.0", scale=0.15)
+    check(ctx, zrecs, zone="US-Eastern-DST")
+    ctx.evaluations += len(zrecs)
     ctx.evaluations += len(recs)
     ctx.nontrivial += len({json.dumps([r["u"], r["op"], r["t"], r["k"], r["t1"], r["step"]]) for r in recs
                            if (r["op"] == "range" and r["outs"]) or (r["op"] != "range" and r["out"][:2] != r["t"])})
